@@ -20,7 +20,7 @@ BOUNDED (labelled, never counted as proved): the round trip  plan.call(f, *args,
 import itertools
 
 from ujvc.core import EngineSignal, Unsupported
-from ujvc.units import get, unit
+from ujvc.units import get, unit, user_value
 from ujvc.vc import VC, IntS, SInt
 from ujvc.z3env import z3
 
@@ -131,7 +131,7 @@ def plan_call_unit(ctx):
     g2.created = []
     PlanSelf.graph = g2
     N2 = g2.N
-    V = object()
+    V = user_value("literal")
     l = lit(s, V)
     ctx.check("lit:new-Literal-holding-the-very-object,scope=plan._scope,added-as-a-node",
               bool(type(l) is cls["Literal"] and l.value is V and l.scope is SCOPE and g2.created == [l]) and z3.ForAll([x], member(g2.N, x) == z3.Or(member(N2, x), x == objs.nt(l))),
@@ -326,6 +326,21 @@ def unpack_unit(ctx):
                 ctx.check("sized-input:exact-length=>tuple-of-exactly-the-items-in-iteration-order", bool(k2 == "ret" and type(v2) is tuple and v2 == want), info=f"{what}: {v2!r} vs {want!r}")
             else:
                 ctx.check("sized-input:wrong-length=>ValueError", bool(k2 == "raise" and isinstance(v2, ValueError)), info=what)
+        # an object whose len() is NOT the number of items it iterates over (a table: len = rows, iteration = column labels): Python's own
+        # unpacking only iterates, so only the iteration counts - whatever len() says (smaller, equal, larger)
+        for lie in (0, n, n + 3):
+            class Table:
+                def __len__(self):
+                    return lie
+
+                def __iter__(self):
+                    return iter(items)
+
+            k3, v3 = _catch(ctx, lambda: f(Table(), length))
+            if n == length:
+                ctx.check("len()-differs-from-iteration:exactly-n-items-iterated=>those-items", bool(k3 == "ret" and v3 == tuple(items)), info=f"len()={lie}, iterates {n}: {v3!r}")
+            else:
+                ctx.check("len()-differs-from-iteration:wrong-number-iterated=>ValueError", bool(k3 == "raise" and isinstance(v3, ValueError)), info=f"len()={lie}, iterates {n}: {v3!r}")
     kind, val = _catch(ctx, lambda: f(it, length))
     exact = (n == length)
     if exact:
@@ -662,6 +677,52 @@ def run_call_admission(ctx):
                         bad.append((name, which, workers, f"raising callable: run gave {out!r} instead of a CallError carrying the call"))
                 if open_runnings(obs.ev) or obs.ev[:1] != [("enter",)] or obs.ev[-1:] != [("exit",)]:
                     bad.append((name, which, workers, f"progress trace not closed: open={open_runnings(obs.ev)} ends={obs.ev[:1]}..{obs.ev[-1:]}"))
+    # callables that are EQUAL (and hash alike) but are different objects of different classes: each call runs ITS OWN function and is reported
+    # under ITS OWN scope - nothing may be keyed by the callable's value
+    import typing
+
+    class Add(typing.NamedTuple):
+        k: int
+
+        def __call__(self, x=10):
+            return ("add", x + self.k)
+
+    class Mul(typing.NamedTuple):
+        k: int
+
+        def __call__(self, x=10):
+            return ("mul", x * self.k)
+
+    for workers in (1, 3):
+        for first, second in ((Add(2), Mul(2)), (Mul(2), Add(2)), (Add(2), Add(2.0))):
+            for retry in (None, 2):
+                plan = uberjob.Plan()
+                try:
+                    with plan.scope("stage"):
+                        n1, n2 = plan.call(first), plan.call(second)
+                except TypeError:
+                    rejected += 1
+                    continue
+                admitted += 1
+                obs = Obs()
+                kw = {"retry": retry} if retry else {}
+                try:
+                    r = uberjob.run(plan, output=[n1, n2], max_workers=workers, progress=P(obs), **kw)
+                except Exception as e:  # noqa: BLE001
+                    r = ("raised", repr(e))
+                want = [first(), second()]
+                if r != want or [type(x[1]) for x in r] != [type(x[1]) for x in want]:
+                    bad.append(("equal-callables", repr((first, second)), workers, retry, f"run gave {r!r}, direct evaluation {want!r}"))
+                import collections as _c
+
+                tot, comp = _c.Counter(), _c.Counter()
+                for e in obs.ev:
+                    if e[0] == "total" and e[1] == "run":
+                        tot[e[2]] += e[3]
+                    elif e[0] == "completed" and e[1] == "run":
+                        comp[e[2]] += 1
+                if tot != comp:
+                    bad.append(("equal-callables", repr((first, second)), workers, retry, f"announced {dict(tot)} but completed {dict(comp)}"))
     ctx.check("bounded/every-callable-Plan.call-admits-can-be-named,run,and-reported(CallError-with-the-call;every-running-closed)", bool(not bad),
               info=f"admitted={admitted} rejected={rejected}; first problems: {bad[:3]}")
     ctx.check("bounded/callable-kinds-nontrivial", bool(admitted >= 10), info=f"admitted={admitted} rejected={rejected}")
